@@ -76,9 +76,9 @@ class Expr2Mixin:
         site = self.site(st, 'sub')
         if z3.is_int_value(i) and i.as_long() < 0:
             k = l.n + i
-            self.check(st, k >= 0, f"safety[{site}]::index_in_range", 'safety')
+            self.safety(st, k >= 0, f"safety[{site}]::index_in_range")
             return l.at(k)
-        self.check(st, z3.And(-l.n <= i, i < l.n), f"safety[{site}]::index_in_range", 'safety')
+        self.safety(st, z3.And(-l.n <= i, i < l.n), f"safety[{site}]::index_in_range")
         if z3.is_int_value(i):
             return l.at(i)
         # python wraps negative indices
